@@ -117,10 +117,17 @@ func endpointsOn(n *TNode, ep string) int {
 }
 
 func TestC18(t *testing.T) {
-	vlib.SetRule("C18", "TestC18", "real clusters of 2-4 nodes; 1-4 upstream listeners (distinct endpoints, Go SDK http) connect through a harness TCP load balancer that routes only to live nodes' upstream ports with a drawn node preference; the victim is any node, lost by graceful Shutdown (drawn grace period) or by a crash-like kill, while idle, with upstreams attached, or with slow requests in flight through survivors; oracle: graceful shutdown returns within the grace period, leaves a left marker and no live endpoint keys in the victim's gossip state and every survivor sees status left as soon as Shutdown returns; in both manners no listener's Accept fails, every listener is registered on a survivor within the deadline, then requests for its endpoint succeed with the right stamp from every survivor, and in-flight requests entering at survivors end only in 200 or a gateway error; non-trivial = the victim held an upstream and requests enter at a different survivor")
+	vlib.SetRule("C18", "TestC18", "real clusters of 2-4 nodes; 1-4 upstream listeners (distinct endpoints, Go SDK http) connect through a harness TCP load balancer that routes only to live nodes' upstream ports with a drawn node preference; the victim is any node, lost by graceful Shutdown (drawn grace period) or by a crash-like kill, while idle, with upstreams attached, or with slow requests in flight through survivors (and, in a third of the graceful cases, a 6 s request in flight through the victim's own proxy port); oracle: graceful shutdown returns within the grace period, leaves a left marker and no live endpoint keys in the victim's gossip state and every survivor sees status left as soon as Shutdown returns, and the victim's endpoints are served again by the survivors within 4 s of the shutdown starting, not when the slow request ends; in both manners no listener's Accept fails, every listener is registered on a survivor within the deadline, then requests for its endpoint succeed with the right stamp from every survivor, and in-flight requests entering at survivors end only in 200 or a gateway error; non-trivial = the victim held an upstream and requests enter at a different survivor")
 	vlib.Run(t, "C18", func(c *vlib.Case) {
 		N := c.Int("nodes", 2, 4)
 		grace := time.Duration(c.Int("graceSec", 2, 8)) * time.Second
+		// in some graceful shutdowns a slow request (6 s) is in flight through the
+		// leaving node's own proxy port: traffic must be withdrawn from the node and
+		// recover on the survivors without waiting for that request
+		slowThroughVictim := c.Chance("slowRequestThroughVictim", 1, 3)
+		if slowThroughVictim {
+			grace = 8 * time.Second
+		}
 		// half of the clusters protect the upstream port; listeners then hold tokens
 		// without an expiry or expiring long after the scenario
 		withAuth := c.Bool("upstreamAuth")
@@ -257,6 +264,56 @@ func TestC18(t *testing.T) {
 				reachableBefore[sv.ID] = true
 			}
 		}
+		servedAgain := make(chan time.Duration, 1)
+		probing := false
+		if slowThroughVictim && manner == "shutdown" && phase != "idle" && len(survivors) > 0 {
+			var held []tracked
+			for _, tu := range ups {
+				if endpointsOn(victim, tu.u.Endpoint) > 0 {
+					held = append(held, tu)
+				}
+			}
+			if len(held) > 0 {
+				probing = true
+				c.Class("slow-request-through-the-leaving-node")
+				slow := held[0]
+				inner := slow.u.Handler
+				slow.u.Handler = func(u *Up, w http.ResponseWriter, r *http.Request, rec *Recorded) {
+					if r.Header.Get("X-Verif-Slow") != "" {
+						select {
+						case <-time.After(6 * time.Second):
+						case <-r.Context().Done():
+						}
+						w.WriteHeader(200)
+						return
+					}
+					if inner != nil {
+						inner(u, w, r, rec)
+						return
+					}
+					w.WriteHeader(200)
+				}
+				go Get(victim, slow.u.Endpoint, "host", "", map[string]string{"X-Verif-Slow": "1"})
+				time.Sleep(150 * time.Millisecond)
+				c.Stepf("a 6 s request for %s is in flight through %s's proxy port", slow.u.Endpoint, victim.ID)
+				start := time.Now()
+				go func() {
+					ok := Eventually(7*time.Second, func() bool {
+						for _, tu := range held {
+							if res := Get(survivors[0], tu.u.Endpoint, "host", "", nil); res.Err != nil || res.Status != 200 {
+								return false
+							}
+						}
+						return true
+					})
+					if ok {
+						servedAgain <- time.Since(start)
+					} else {
+						servedAgain <- -1
+					}
+				}()
+			}
+		}
 		victim.Up = false
 		t0 := time.Now()
 		if manner == "shutdown" {
@@ -269,6 +326,13 @@ func TestC18(t *testing.T) {
 			}
 			took := time.Since(t0)
 			c.Stepf("shutdown of %s returned after %v", victim.ID, took)
+			if probing {
+				d := <-servedAgain
+				c.Stepf("endpoints of %s served again through %s after %v", victim.ID, survivors[0].ID, d)
+				if d < 0 || d > 4*time.Second {
+					Missf(c, "C18: %s shut down gracefully with a 6 s request in flight through its own proxy port; its endpoints were served again by the survivors only after %v (-1ns = not within 7 s): the withdrawal waited for the request instead of preceding it (measured without such a request: 0.1-0.3 s)", victim.ID, d)
+				}
+			}
 			if took > grace+time.Duration(float64(5*time.Second)*TimeScale()) {
 				c.Fatalf("C18: graceful shutdown of %s took %v, grace period is %v", victim.ID, took, grace)
 			}
